@@ -488,7 +488,19 @@ class Flow:
         return frozenset(out)
 
     def _zip_position(self, it, idx, f, env, depth):
-        """for a, b in zip(x, y) / for i, a in enumerate(x): the idx-th target takes the elements of that argument only."""
+        """for a, b in zip(x, y) / for i, a in enumerate(x): the idx-th target takes the elements of that argument only.
+        for a, b in ((1, x), (2, y)) - a literal table, directly or through a local bound once: the idx-th column."""
+        table = it
+        if isinstance(table, ast.Name) and f is not None and idx is not None:
+            bl = self.res.bindings(f).get(table.id, [])
+            if len(bl) == 1 and bl[0][0] == "value":
+                table = bl[0][1]
+        if isinstance(table, (ast.Tuple, ast.List)) and idx is not None and table.elts \
+                and all(isinstance(r, (ast.Tuple, ast.List)) and len(r.elts) > idx and not any(isinstance(y, ast.Starred) for y in r.elts) for r in table.elts):
+            out = set()
+            for r in table.elts:
+                out |= self.term(r.elts[idx], f, env, depth + 1)
+            return frozenset(out)
         if not (isinstance(it, ast.Call) and isinstance(it.func, ast.Name) and idx is not None and not it.keywords
                 and not any(isinstance(a, ast.Starred) for a in it.args)):
             return None
